@@ -57,6 +57,9 @@ class TokenRoot(KDDataset):
     def getitem_aux(self, idx, ctx=None):
         return ("aux", self.root_id, self._norm(idx))
 
+    def getitem_aux2(self, idx, ctx=None):
+        return ("aux2", self.root_id, self._norm(idx))
+
     def getitem_class(self, idx, ctx=None):
         return class_of(self.root_id, self.C, self.lay, self._norm(idx), self.n)
 
@@ -73,7 +76,7 @@ class TokenRoot(KDDataset):
         # bulk accessors exist only when configured (hasattr must be False otherwise)
         if item.startswith("getall_") and self.__dict__.get("bulk", "none") != "none":
             what = item[len("getall_"):]
-            if what in ("x", "aux", "class"):
+            if what in ("x", "aux", "aux2", "class"):
                 return lambda: self._getall(what)
         return super().__getattr__(item)
 
@@ -103,11 +106,69 @@ class TagWrapper(KDWrapper):
         self.wid = wid
 
     def getitem_x(self, idx, ctx=None):
+        if ctx is not None:
+            ctx[f"tag{self.wid}"] = int(idx)
         return ("tag", self.wid, self.dataset.getitem_x(idx, ctx))
 
     def getall_x(self):
         # a wrapper that rewrites an item has to rewrite its bulk accessor too
         return [("tag", self.wid, v) for v in self.dataset.getall_x()]
+
+
+_FUSED_CACHE = {}
+ALL_ITEMS = ("x", "class", "aux", "aux2")
+
+
+def fused_wrapper_class(groups):
+    """KDWrapper subclass declaring `groups` as jointly loaded; every loader call draws a fresh nonce, the joint loader
+    stamps all members of its group with one nonce.  All items are implemented on the type (ModeWrapper requires it)."""
+    key = tuple(tuple(g) for g in groups)
+    if key in _FUSED_CACHE:
+        return _FUSED_CACHE[key]
+    member = {it: gi for gi, g in enumerate(groups) for it in g}
+
+    def make_single(it):
+        def getitem(self, idx, ctx=None):
+            inner = getattr(self.dataset, f"getitem_{it}")(idx, ctx)
+            if it not in member:
+                return inner
+            nonce = self._nonce(joint=False)
+            if ctx is not None:
+                ctx[f"f{self.wid}.{it}"] = int(idx)
+            return ("f", self.wid, it, nonce, inner)
+        return getitem
+
+    def make_joint(g):
+        def getitem(self, idx, ctx=None):
+            nonce = self._nonce(joint=True)
+            out = []
+            for it in g:
+                inner = getattr(self.dataset, f"getitem_{it}")(idx, ctx)
+                if ctx is not None:
+                    ctx[f"f{self.wid}.{it}"] = int(idx)
+                out.append(("f", self.wid, it, nonce, inner))
+            return tuple(out)
+        return getitem
+
+    def _nonce(self, joint):
+        self.counter += 1
+        if joint:
+            self.joint_nonces.add(self.counter)
+        return self.counter
+
+    def __init__(self, dataset, wid):
+        KDWrapper.__init__(self, dataset=dataset)
+        self.wid, self.counter, self.joint_nonces = wid, 0, set()
+
+    ns = {"__init__": __init__, "_nonce": _nonce,
+          "fused_operations": property(lambda self: KDWrapper.fused_operations.fget(self) + [list(g) for g in groups])}
+    for it in ALL_ITEMS:
+        ns[f"getitem_{it}"] = make_single(it)
+    for g in groups:
+        ns["getitem_" + "".join(g)] = make_joint(g)
+    cls = type("FusedWrapper_" + "_".join("".join(g) for g in groups), (KDWrapper,), ns)
+    _FUSED_CACHE[key] = cls
+    return cls
 
 
 def _identity_shipped_wrapper(kind, child):
@@ -161,6 +222,10 @@ def build(spec, _roots=None):
         else:
             ds = PassWrapper(c)
         return ds, {"t": "wrap", "spec": spec, "obj": ds, "child": cref}
+    if t == "fused":
+        c, cref = build(spec["child"])
+        ds = fused_wrapper_class(spec["groups"])(c, spec["wid"])
+        return ds, {"t": "fused", "spec": spec, "obj": ds, "child": cref}
     if t == "shipped_wrap":
         c, cref = build(spec["child"])
         ds = _identity_shipped_wrapper(spec["kind"], c)
@@ -198,7 +263,7 @@ def ref_len(ref):
     t = ref["t"]
     if t == "root":
         return ref["spec"]["n"]
-    if t == "wrap":
+    if t in ("wrap", "fused"):
         return ref_len(ref["child"])
     if t == "subset":
         return len(ref["indices"])
@@ -208,8 +273,9 @@ def ref_len(ref):
         return sum(ref_len(c) for c in ref["children"])
 
 
-def ref_item(ref, item, k):
-    """expected value of getitem_<item>(k) by composing the layers' index maps"""
+def ref_item(ref, item, k, ctx=None):
+    """expected value of getitem_<item>(k) by composing the layers' index maps; records the expected ctx entries.
+    Values of fused wrappers are ('f', wid, item, None, inner) - the nonce position is compared separately."""
     t = ref["t"]
     if t == "root":
         s = ref["spec"]
@@ -218,25 +284,35 @@ def ref_item(ref, item, k):
         assert 0 <= j < n, (k, n)
         if item == "class":
             return class_of(s["id"], s.get("C", 3), s.get("lay", 0), j, n)
+        if item == "x" and ctx is not None:
+            ctx["x@root"] = (s["id"], j)
         return (item, s["id"], j)
     if t == "wrap":
-        inner = ref_item(ref["child"], item, k)
         if ref["spec"]["kind"] == "tag" and item == "x":
-            return ("tag", ref["spec"]["wid"], inner)
+            if ctx is not None:
+                ctx[f"tag{ref['spec']['wid']}"] = k
+            return ("tag", ref["spec"]["wid"], ref_item(ref["child"], item, k, ctx))
+        return ref_item(ref["child"], item, k, ctx)
+    if t == "fused":
+        inner = ref_item(ref["child"], item, k, ctx)
+        if any(item in g for g in ref["spec"]["groups"]):
+            if ctx is not None:
+                ctx[f"f{ref['spec']['wid']}.{item}"] = k
+            return ("f", ref["spec"]["wid"], item, None, inner)
         return inner
     if t == "subset":
-        return ref_item(ref["child"], item, ref["indices"][k])
+        return ref_item(ref["child"], item, ref["indices"][k], ctx)
     if t == "concat":
         parts = ref["children"]
         if ref["spec"].get("balanced"):
             p = k % len(parts)
-            return ref_item(parts[p], item, (k // len(parts)) % ref_len(parts[p]))
+            return ref_item(parts[p], item, (k // len(parts)) % ref_len(parts[p]), ctx)
         total = ref_len(ref)
         j = k + total if k < 0 else k
         for p in parts:
             n = ref_len(p)
             if j < n:
-                return ref_item(p, item, j)
+                return ref_item(p, item, j, ctx)
             j -= n
         raise AssertionError("index outside concat")
 
